@@ -25,10 +25,9 @@ import (
 // probeFlushEmpty checks, per backing store, that Flush of an empty buffer leaves the
 // store usable.  A store that is wedged afterwards (two fresh instances, both stuck on a
 // millisecond operation for the whole watchdog) is reported as hang/buffer-<base>.flush-empty
-// and the histories then avoid flushing an empty buffer over that store, so that the rest
-// of the contract is still observed.
+// and the histories over that combination are skipped (they would each hang).
 func probeFlushEmpty(r *ev.Run, root string) map[string]bool {
-	leaks := map[string]bool{}
+	hangs := map[string]bool{}
 	var mu sync.Mutex
 	var wg sync.WaitGroup
 	for _, base := range bases {
@@ -106,12 +105,12 @@ func probeFlushEmpty(r *ev.Run, root string) map[string]bool {
 				r.Violation("hang/buffer-"+base+".flush-empty",
 					fmt.Sprintf("[buffer over %s] after Flush() of an empty buffer the next call never returns (%d of %d fresh instances stuck for 8s on Flush+Get)", base, hung, attempts), witness)
 				mu.Lock()
-				leaks[base] = true
+				hangs[base] = true
 				mu.Unlock()
 			case hung > 0:
 				r.Inconclusive(fmt.Sprintf("flush-empty probe of buffer over %s: %d of %d instances hit the watchdog", base, hung, attempts))
 				mu.Lock()
-				leaks[base] = true
+				hangs[base] = true
 				mu.Unlock()
 			case wrong > 0:
 				r.Violation("get/buffer-"+base, fmt.Sprintf("[buffer over %s] %v", base, what.Load()), witness)
@@ -119,7 +118,7 @@ func probeFlushEmpty(r *ev.Run, root string) map[string]bool {
 		}()
 	}
 	wg.Wait()
-	return leaks
+	return hangs
 }
 
 // ------------------------------------------------------------ batch unity under concurrency
@@ -181,6 +180,9 @@ func tornCheck(r *ev.Run, root, id string, sp *spec) {
 	// and goes on (up to rmax) while the writer has not finished its minimum.
 	const nReaders = 3
 	n := int64(r.Pick(600, 4000))
+	if sp.name == "kv" {
+		n *= 5 // the open finding batch-torn/kv depends on the schedule: give it more chances
+	}
 	nmax := 20 * n
 	rmin, rmax := int(n), int(20*n)
 	var started, completed atomic.Int64
